@@ -4,7 +4,7 @@ S3 harness: the real ObjectPath / _components_to_path / _path_components run on 
 length whose characters are unconstrained symbolic code points."""
 import itertools
 import z3
-from ..sx import explore, Inconclusive
+from ..sx import explore, Inconclusive, Violation
 from ..sxstr import SymStr, sym_str
 
 MANIFEST = dict(
@@ -95,6 +95,8 @@ def _e2e(names):
     if [x.name for x in tf.groups()] != [g]:
         return 'groups %r' % ([x.name for x in tf.groups()],)
     grp = tf[g]
+    if dict(grp.properties) != {'p': 1}:
+        return 'group properties %r' % (dict(grp.properties),)
     if [x.name for x in grp.channels()] != [c, c + "'"]:
         return 'channels %r' % ([x.name for x in grp.channels()],)
     ch = grp[c]
@@ -168,6 +170,27 @@ def run_task(task):
             if err:
                 ctx.fail('e2e', names=cn, error=err)
             ctx.note('e2e-witness')
+            # further witnesses, one per syntactic class the solver can realise on this path: a name ending in a slash, containing
+            # slash-quote / quote-slash, starting or ending with a quote (the characters the path syntax itself uses)
+            Q, S_ = ord("'"), ord('/')
+            classes = []
+            for cs in vs:
+                if cs:
+                    classes += [cs[-1] == S_, cs[0] == Q, cs[-1] == Q, cs[0] == S_]
+                for a, b in zip(cs, cs[1:]):
+                    classes += [z3.And(a == S_, b == Q), z3.And(a == Q, b == S_), z3.And(a == Q, b == Q)]
+            seen = {tuple(cn)}
+            for cl in classes:
+                ctx.nqueries += 1
+                if ctx.solver.check(cl) != z3.sat:
+                    continue
+                wn = _concrete(ctx.solver.model(), vs)
+                if tuple(wn) in seen:
+                    continue
+                seen.add(tuple(wn))
+                err = _e2e(wn)
+                if err:
+                    raise Violation(dict(what='e2e', inputs=dict(names=wn), names=wn, error=err))
 
     def inj(ctx):
         n1, v1 = _names(ctx, 'a', task['a'])
